@@ -44,6 +44,7 @@
 #include "player.h"
 #include "rng.h"
 #include "paula.h"
+#include "c14_voice_members.h"	/* generated from src/mixer.h: C14_VOICE_MEMBERS(I, D, P) */
 
 typedef void (*kern_fp)(struct mixer_voice *, int *, int, int, int, int, int, int, int);
 static void c14_kernel_call(kern_fp real, const char *name, int stereo, int kind, struct mixer_voice *vi,
@@ -160,7 +161,11 @@ static int g_cur_voice_first;		/* voice index whose first kernel call of the tic
 static struct mixer_voice *g_first_seen[1];
 
 /* budgets for emitted model cases, per module */
-static int b_sum, b_kern, b_vol, b_dmx, b_vt, b_k2, b_pk;
+static int b_sum, b_kern, b_vol, b_dmx, b_vt, b_k2, b_pk, b_vr, b_vr_odd;
+static long st_vr_cases, st_freed, st_free_checked, st_reuse, st_reuse_filter, st_reuse_ramp, st_reuse_queued, st_reuse_rev,
+	st_reuse_paula;
+#define C14_MAXV 1024
+static int g_prev_chn[C14_MAXV], g_owner_root[C14_MAXV], g_slot_had[C14_MAXV], g_have_prev;
 static long st_pk_cases;
 static long st_k2_cases, st_k2_skipped, st_maxvol, st_maxlevel;
 static int p_kern;			/* sampling percentage for kernel calls */
@@ -594,6 +599,19 @@ static void tie_fail(struct context_data *ctx, const char *sig, const char *fmt,
 	(void)ctx;
 }
 
+static void reset_slot_tracking(void)
+{
+	int v;
+	for (v = 0; v < C14_MAXV; v++) {
+		g_prev_chn[v] = -1;
+		g_owner_root[v] = -1;
+		g_slot_had[v] = 0;
+	}
+	g_have_prev = 0;
+	st_vr_cases = st_freed = st_free_checked = st_reuse = st_reuse_filter = st_reuse_ramp = st_reuse_queued = st_reuse_rev = 0;
+	st_reuse_paula = 0;
+}
+
 static void tie_tick(struct context_data *ctx)
 {
 	struct player_data *p = &ctx->p;
@@ -634,6 +652,118 @@ static void tie_tick(struct context_data *ctx)
 	for (i = 0; i < n; i++) {
 		if (full[i])
 			st_nonzero_words++;
+	}
+
+	/* voice slots: a slot whose owner (root channel) changed since it was last seen in use = reuse by another
+	 * channel; what the new owner would inherit if the slot had not been cleared is counted by kind */
+	for (v = 0; v < nv && v < C14_MAXV; v++) {
+		const struct mixer_voice *a = &s0.voices[v];
+		if (a->chn < 0)
+			continue;
+		if (g_owner_root[v] >= 0 && g_owner_root[v] != a->root) {
+			st_reuse++;
+			if ((a->fidx & FLAG_FILTER) && !(a->filter.cutoff >= 0xfe && a->filter.resonance == 0))
+				st_reuse_filter++;
+			if (a->paula != NULL && (p->flags & XMP_FLAGS_A500))
+				st_reuse_paula++;
+			if (g_slot_had[v] & 1)
+				st_reuse_ramp++;
+			if (g_slot_had[v] & 2)
+				st_reuse_queued++;
+			if (g_slot_had[v] & 4)
+				st_reuse_rev++;
+			g_slot_had[v] = 0;
+		}
+		g_owner_root[v] = a->root;
+		if (a->old_vl || a->old_vr || a->sleft || a->sright)
+			g_slot_had[v] |= 1;
+		if (a->flags & (SAMPLE_QUEUED | SAMPLE_PAUSED))
+			g_slot_had[v] |= 2;
+		if (a->flags & (VOICE_REVERSE | VOICE_BIDIR))
+			g_slot_had[v] |= 4;
+	}
+
+	/* free voices (before and after the mixer ran): every member must have the value of a freshly reset voice
+	 * (Xmp.MixKernel.resetValue, member list generated from mixer.h) - libxmp_virt_resetvoice / _resetchannel /
+	 * virt_reset are the only writers of a free slot.  All free voices are compared with each other here, a sample
+	 * of them (those freed since the previous tick first) with the Lean model. */
+	{
+		const struct snap *sn[2] = { &s0, &s1 };
+		int w;
+		for (w = 0; w < 2; w++) {
+			int ref = -1;
+			for (v = 0; v < sn[w]->nv; v++) {
+				const struct mixer_voice *a = &sn[w]->voices[v];
+				int freed_now;
+				if (a->chn >= 0)
+					continue;
+				st_free_checked++;
+				if (ref < 0) {
+					ref = v;
+				} else {
+					const struct mixer_voice *r = &sn[w]->voices[ref];
+					int diff = 0;
+#define VI(m) if (a->m != r->m) diff++;
+#define VD(m) if (a->m != r->m) diff++;
+#define VP(m)
+					C14_VOICE_MEMBERS(VI, VD, VP)
+#undef VI
+#undef VD
+#undef VP
+					if (a->sptr != r->sptr || (a->paula == NULL) != (r->paula == NULL))
+						diff++;
+					if (diff)
+						tie_fail(ctx, "reset:free_voice_state", "voice=%ld differs from free voice %ld in %ld members", v, ref,
+							 diff);
+				}
+				freed_now = v < C14_MAXV && g_have_prev && g_prev_chn[v] >= 0;
+				if (w == 1 && s0.voices[v].chn >= 0)
+					freed_now = 1;
+				if (freed_now)
+					st_freed++;
+				/* images that are not plainly zero are always worth the model's verdict (own small budget) */
+				{
+					long nz = 0;
+#define VI(m) if (a->m != 0 && strcmp(#m, "chn") != 0 && strcmp(#m, "root") != 0) nz++;
+#define VD(m) if (a->m != 0.0) nz++;
+#define VP(m) if (strcmp(#m, "paula") != 0 && a->m != NULL) nz++;
+					C14_VOICE_MEMBERS(VI, VD, VP)
+#undef VI
+#undef VD
+#undef VP
+					if (nz && b_vr_odd > 0) {
+						b_vr_odd--;
+						b_vr++;
+						freed_now = 2;
+					}
+				}
+				if (b_vr > 0 && (freed_now == 2 || (freed_now ? vrng_chance(50) : vrng_chance(1)))) {
+					const struct paula_state *ps = a->paula ? &sn[w]->paula[v] : NULL;
+					printf("C vr");
+#define VI(m) printf(" " #m);
+					C14_VOICE_MEMBERS(VI, VI, VI)
+#undef VI
+					if (ps)
+						printf(" paula.global_output_level paula.active_bleps paula.remainder_is_fdiv");
+					printf("\nE");
+#define VI(m) printf(" %d", (int)a->m);
+#define VD(m) printf(" %s", a->m == 0.0 ? "0" : "nonzero");
+#define VP(m) printf(" %s", strcmp(#m, "paula") == 0 ? "*" : a->m == NULL ? "0" : "nonnull");
+					C14_VOICE_MEMBERS(VI, VD, VP)
+#undef VI
+#undef VD
+#undef VP
+					if (ps)
+						printf(" %d %u %d", ps->global_output_level, ps->active_bleps, ps->remainder == ps->fdiv);
+					printf("\n");
+					b_vr--;
+					st_vr_cases++;
+				}
+			}
+		}
+		for (v = 0; v < nv && v < C14_MAXV; v++)
+			g_prev_chn[v] = s1.voices[v].chn;
+		g_have_prev = 1;
 	}
 
 	/* downmix cases */
@@ -777,6 +907,8 @@ void libxmp_mixer_softmixer(struct context_data *ctx)
 
 struct cfg {
 	int rate, fmt, interp, amp, mix, master, smixvol, dsp, a500, startpos;
+	int jump_frame, jump_pos;	/* xmp_set_position(jump_pos) before frame jump_frame (0 = none): libxmp_virt_reset frees every
+					 * voice, the channels then take the slots in a new order */
 	int mute[XMP_MAX_CHANNELS];
 };
 
@@ -909,7 +1041,7 @@ static int mode_tie(uint64_t seed, int nframes, const char *path, int lowrate)
 		return 0;
 	}
 	g_modname = base_name(path);
-	b_sum = 6; b_kern = 10; b_vol = 40; b_dmx = 16; b_vt = 8; b_k2 = 14; b_pk = 10;
+	b_sum = 6; b_kern = 10; b_vol = 40; b_dmx = 16; b_vt = 8; b_k2 = 14; b_pk = 10; b_vr = 6; b_vr_odd = 4;
 	p_kern = 4;
 	st_ticks = st_voice_solos = st_kernel_calls = st_fail = st_active_voice_ticks = st_multi_voice_ticks = 0;
 	st_kern_cases = st_vol_cases = st_sum_cases = st_vt_cases = st_vt_skipped = st_ac_kernel_calls = 0;
@@ -917,20 +1049,30 @@ static int mode_tie(uint64_t seed, int nframes, const char *path, int lowrate)
 	st_k2_cases = st_k2_skipped = st_maxvol = st_maxlevel = st_maxactive = 0;
 	st_maxacc = 0;
 	st_pk_cases = 0;
+	reset_slot_tracking();
 	printf("begin tie %s rate=%d fmt=%d interp=%d amp=%d mix=%d master=%d dsp=%d a500=%d pos=%d\n", path, c.rate,
 	       c.fmt, c.interp, c.amp, c.mix, c.master, c.dsp, c.a500, c.startpos);
 	g_tie = 1;
+	c.jump_frame = vrng_chance(40) ? vrng_range(nframes / 4, nframes / 2 + 1) : 0;
+	c.jump_pos = (int)vrng_below(len);
 	for (f = 0; f < nframes; f++) {
+		if (c.jump_frame > 0 && f == c.jump_frame) {
+			g_tie = 0;
+			xmp_set_position(x, c.jump_pos);
+			g_tie = 1;
+		}
 		if (xmp_play_frame(x) < 0)
 			break;
 	}
 	g_tie = 0;
 	printf("tiestat %s ticks=%ld solos=%ld multi=%ld kernel_calls=%ld ac_calls=%ld filter_calls=%ld paula_calls=%ld "
 	       "one_frame_calls=%ld nonzero_words=%ld fails=%ld sum=%ld vol=%ld kern=%ld vt=%ld vt_skipped=%ld k2=%ld k2_skipped=%ld "
-	       "maxvol=%ld maxlevel=%ld maxactive=%ld wraps=%ld maxacc=%lld pk=%ld\n", base_name(path), st_ticks,
+	       "maxvol=%ld maxlevel=%ld maxactive=%ld wraps=%ld maxacc=%lld pk=%ld vr=%ld freed=%ld free_checked=%ld reuse=%ld "
+	       "reuse_filter=%ld reuse_ramp=%ld reuse_queued=%ld reuse_rev=%ld reuse_paula=%ld\n", base_name(path), st_ticks,
 	       st_voice_solos, st_multi_voice_ticks, st_kernel_calls, st_ac_kernel_calls, st_filter_calls, st_paula_calls,
 	       st_one_frame_calls, st_nonzero_words, st_fail, st_sum_cases, st_vol_cases, st_kern_cases, st_vt_cases, st_vt_skipped,
-	       st_k2_cases, st_k2_skipped, st_maxvol, st_maxlevel, st_maxactive, st_wraps, st_maxacc, st_pk_cases);
+	       st_k2_cases, st_k2_skipped, st_maxvol, st_maxlevel, st_maxactive, st_wraps, st_maxacc, st_pk_cases, st_vr_cases, st_freed,
+	       st_free_checked, st_reuse, st_reuse_filter, st_reuse_ramp, st_reuse_queued, st_reuse_rev, st_reuse_paula);
 	close_ctx(x);
 	return 0;
 }
@@ -958,7 +1100,8 @@ static int mode_overdrive(uint64_t seed, int nframes, const char *path)
 	if (getenv("C14_MASTER") != NULL)
 		xmp_set_player(x, XMP_PLAYER_VOLUME, atoi(getenv("C14_MASTER")));
 	g_modname = base_name(path);
-	b_sum = b_kern = b_vol = b_dmx = b_vt = b_k2 = b_pk = 0;
+	b_sum = b_kern = b_vol = b_dmx = b_vt = b_k2 = b_pk = b_vr = b_vr_odd = 0;
+	reset_slot_tracking();
 	st_ticks = st_fail = st_wraps = st_maxvol = st_maxlevel = st_maxactive = 0;
 	st_maxacc = 0;
 	printf("begin overdrive %s\n", path);
@@ -1188,6 +1331,8 @@ static int render16(const char *path, const struct cfg *c, int nframes, struct r
 			r->stereo_smp = 1;
 	}
 	for (f = 0; f < nframes; f++) {
+		if (c->jump_frame > 0 && f == c->jump_frame)
+			xmp_set_position(x, c->jump_pos);
 		if (xmp_play_frame(x) < 0)
 			break;
 		xmp_get_frame_info(x, &fi);
@@ -1245,6 +1390,10 @@ static long mode_solosum(uint64_t seed, int nframes, const char *path, int a500,
 	c.startpos = vrng_chance(60) ? 0 : (int)vrng_below(len);
 	if (getenv("C14_POS") != NULL)
 		c.startpos = atoi(getenv("C14_POS"));
+	if (vrng_chance(35) || getenv("C14_JUMP") != NULL) {
+		c.jump_frame = vrng_range(nframes / 4, nframes / 2 + 1);
+		c.jump_pos = (int)vrng_below(len);
+	}
 
 	x = xmp_create_context();
 	if (xmp_load_module(x, path) < 0) {
@@ -1337,8 +1486,8 @@ static long mode_solosum(uint64_t seed, int nframes, const char *path, int a500,
 		if (c.a500 && mode_solosum(seed, nframes, path, 0, 1) == 0)
 			suffix = ":a500";
 		printf("oracle_fail superposition:solo_sum%s module=%s groups=%d channels=%d samples_beyond_tolerance=%ld first=%ld "
-		       "worst=%ld rate=%d fmt=%d interp=%d amp=%d master=%d mix=%d pos=%d a500=%d\n", suffix, path, ngroups, nchn, exceed, firstbad,
-		       worst, c.rate, c.fmt, c.interp, c.amp, c.master, c.mix, c.startpos, c.a500);
+		       "worst=%ld rate=%d fmt=%d interp=%d amp=%d master=%d mix=%d pos=%d a500=%d jump=%d@%d\n", suffix, path, ngroups, nchn, exceed, firstbad,
+		       worst, c.rate, c.fmt, c.interp, c.amp, c.master, c.mix, c.startpos, c.a500, c.jump_pos, c.jump_frame);
 	}
 	if (!quiet)
 		printf("solosumstat %s groups=%d channels=%d frames=%d compared=%ld clipped=%ld worst=%ld d0=%ld d1=%ld d2=%ld d3=%ld "
